@@ -560,6 +560,12 @@ func getObjStm(r Getter, stream *Stream, getInt getIntFn, enc *encryptInfo) (_ *
 	if err != nil {
 		return nil, err
 	}
+	defer func() {
+		// on success the caller closes the decoders through objStm.Close
+		if err != nil {
+			decoded.Close()
+		}
+	}()
 	s := newScanner(decoded, getInt, enc)
 
 	idx := make([]stmObj, n)
